@@ -35,7 +35,9 @@ fn check_system(rep: &mut Report, ctx: &mut Context, sys: &TransitionSystem, lab
     let before = sys.clone();
     let mut after = sys.clone();
     rep.count("programs", 1);
-    match crate::panics::guarded(|| simplify_expressions(ctx, &mut after)) {
+    match crate::panics::guarded(|| {
+        let _ = simplify_expressions(ctx, &mut after);
+    }) {
         Err((loc, msg)) => {
             let known_dep = loc.starts_with("baa-");
             rep.violation(Role::new(SITE_SIMP, "system", &format!("panic@{loc}")), format!("{label}: simplify_expressions panicked: {msg}"), json!({"system": replay, "dependency_panic": known_dep}));
@@ -78,7 +80,9 @@ fn check_system(rep: &mut Report, ctx: &mut Context, sys: &TransitionSystem, lab
     }
     rep.count("programs", 1);
     let mut after = sys.clone();
-    match crate::panics::guarded(|| replace_anonymous_inputs_with_zero(ctx, &mut after)) {
+    match crate::panics::guarded(|| {
+        let _ = replace_anonymous_inputs_with_zero(ctx, &mut after);
+    }) {
         Err((loc, msg)) => {
             rep.violation(Role::new(SITE_ANON, "system", &format!("panic@{loc}")), format!("{label}: replace_anonymous_inputs_with_zero panicked: {msg}"), json!({"system": replay}));
         }
